@@ -54,3 +54,11 @@ PROPS = {
                 profiles=["listeners"], quick=200, thorough=5000),
     "C13": dict(kind="expr", quick=600, thorough=20000),
 }
+
+# plug-in property tables: every harness/props_<name>.py exposes PROPS (and optionally RUN_PROFILES)
+import os as _os
+for _f in sorted(_os.listdir(_os.path.dirname(_os.path.abspath(__file__)))):
+    if _f.startswith("props_") and _f.endswith(".py"):
+        _m = __import__(_f[:-3])
+        PROPS.update(getattr(_m, "PROPS", {}))
+        RUN_PROFILES.update(getattr(_m, "RUN_PROFILES", {}))
